@@ -512,3 +512,77 @@ pub fn reply_from_spec(spec: &Value) -> Reply {
     }
     r
 }
+
+// ---------------------------------------------------------------------------------------------
+// hostile cut positions for mid-body connection failures
+
+/// Byte offsets at which a mid-body connection failure (`Reply::reset_after`) is most likely to hit
+/// state a stream reader carries between reads, each with a label naming what the client holds
+/// when the connection breaks: every offset within ±3 bytes of the end of each blank line (event
+/// terminator — so after "\r", "\r\n", "\r\n\r", "\n", … of the lines around it), the middle of
+/// every non-blank line, and every offset inside a multi-byte UTF-8 character.
+/// Ascending, de-duplicated, 0 < offset < body.len().
+pub fn hostile_cuts(body: &[u8]) -> Vec<(usize, &'static str)> {
+    fn label(b: &[u8], p: usize) -> &'static str {
+        if (b[p] & 0xC0) == 0x80 {
+            return "inside_utf8_char";
+        }
+        let prev = b[p - 1];
+        let ls = b[..p - 1].iter().rposition(|c| *c == b'\n').map(|i| i + 1).unwrap_or(0);
+        let mut content = &b[ls..p - 1];
+        match prev {
+            b'\n' => {
+                if content.last() == Some(&b'\r') {
+                    content = &content[..content.len() - 1];
+                }
+                if content.is_empty() {
+                    "after_blank_line"
+                } else {
+                    "after_field_line"
+                }
+            }
+            b'\r' => {
+                if content.is_empty() {
+                    "after_cr_of_blank_line"
+                } else {
+                    "after_cr_of_field_line"
+                }
+            }
+            _ => {
+                if b[p] == b'\r' || b[p] == b'\n' {
+                    "before_line_end"
+                } else {
+                    "mid_line"
+                }
+            }
+        }
+    }
+    let n = body.len();
+    let mut set: std::collections::BTreeSet<usize> = std::collections::BTreeSet::new();
+    let mut ls = 0usize;
+    for i in 0..n {
+        if (body[i] & 0xC0) == 0x80 {
+            set.insert(i);
+        }
+        if body[i] != b'\n' {
+            continue;
+        }
+        let mut content = &body[ls..i];
+        if content.last() == Some(&b'\r') {
+            content = &content[..content.len() - 1];
+        }
+        if content.is_empty() {
+            let t = i + 1;
+            for p in t.saturating_sub(3)..=t + 3 {
+                set.insert(p);
+            }
+        } else {
+            set.insert(ls + content.len() / 2);
+        }
+        ls = i + 1;
+    }
+    if ls < n {
+        set.insert(ls + (n - ls) / 2);
+    }
+    set.into_iter().filter(|p| *p > 0 && *p < n).map(|p| (p, label(body, p))).collect()
+}
